@@ -669,7 +669,20 @@ func (c *Collection) FindOneAndDelete(ctx context.Context, filter interface{}, o
 
 	// delete documents
 	res, err := useTransaction(ctx, c.engine, true, func(txn *Transaction) (interface{}, error) {
-		return txn.Delete(c.handle, query, sort, 0, 1)
+		res, err := txn.Delete(c.handle, query, sort, 0, 1)
+		if err != nil {
+			return nil, err
+		}
+
+		// fail before the commit if the result cannot be projected
+		if projection != nil && len(res.Matched) > 0 {
+			_, err = mongokit.Project(res.Matched[0], projection)
+			if err != nil {
+				return nil, err
+			}
+		}
+
+		return res, nil
 	})
 	if err != nil {
 		return &SingleResult{err: err}
@@ -769,27 +782,27 @@ func (c *Collection) FindOneAndReplace(ctx context.Context, filter, replacement 
 
 	// insert document
 	res, err := useTransaction(ctx, c.engine, true, func(txn *Transaction) (interface{}, error) {
-		return txn.Replace(c.handle, query, sort, repl, upsert)
+		res, err := txn.Replace(c.handle, query, sort, repl, upsert)
+		if err != nil {
+			return nil, err
+		}
+
+		// fail before the commit if the result cannot be projected
+		if doc := returnedDocument(res, returnAfter); doc != nil && projection != nil {
+			_, err = mongokit.Project(doc, projection)
+			if err != nil {
+				return nil, err
+			}
+		}
+
+		return res, nil
 	})
 	if err != nil {
 		return &SingleResult{err: err}
 	}
 
-	// get result
-	result := res.(*Result)
-
 	// get doc
-	var doc bsonkit.Doc
-	if result.Upserted != nil {
-		if returnAfter {
-			doc = result.Upserted
-		}
-	} else if len(result.Matched) > 0 {
-		doc = result.Matched[0]
-		if returnAfter && len(result.Modified) > 0 {
-			doc = result.Modified[0]
-		}
-	}
+	doc := returnedDocument(res.(*Result), returnAfter)
 
 	// apply projection
 	if doc != nil && projection != nil {
@@ -882,16 +895,42 @@ func (c *Collection) FindOneAndUpdate(ctx context.Context, filter, update interf
 
 	// update documents
 	res, err := useTransaction(ctx, c.engine, true, func(txn *Transaction) (interface{}, error) {
-		return txn.Update(c.handle, query, sort, upd, 0, 1, upsert, arrayFilters)
+		res, err := txn.Update(c.handle, query, sort, upd, 0, 1, upsert, arrayFilters)
+		if err != nil {
+			return nil, err
+		}
+
+		// fail before the commit if the result cannot be projected
+		if doc := returnedDocument(res, returnAfter); doc != nil && projection != nil {
+			_, err = mongokit.Project(doc, projection)
+			if err != nil {
+				return nil, err
+			}
+		}
+
+		return res, nil
 	})
 	if err != nil {
 		return &SingleResult{err: err}
 	}
 
-	// get result
-	result := res.(*Result)
-
 	// get doc
+	doc := returnedDocument(res.(*Result), returnAfter)
+
+	// apply projection
+	if doc != nil && projection != nil {
+		doc, err = mongokit.Project(doc, projection)
+		if err != nil {
+			return &SingleResult{err: err}
+		}
+	}
+
+	return &SingleResult{doc: doc}
+}
+
+// returnedDocument selects the document a find-and-modify call hands back: the
+// version before the change, or after it if requested.
+func returnedDocument(result *Result, returnAfter bool) bsonkit.Doc {
 	var doc bsonkit.Doc
 	if result.Upserted != nil {
 		if returnAfter {
@@ -904,15 +943,7 @@ func (c *Collection) FindOneAndUpdate(ctx context.Context, filter, update interf
 		}
 	}
 
-	// apply projection
-	if doc != nil && projection != nil {
-		doc, err = mongokit.Project(doc, projection)
-		if err != nil {
-			return &SingleResult{err: err}
-		}
-	}
-
-	return &SingleResult{doc: doc}
+	return doc
 }
 
 // Indexes implements the ICollection.Indexes method.
